@@ -51,14 +51,14 @@ def run_item(item, job, interner, classes, workdir):
             f.write(item["text"])
     else:
         shutil.copyfile(item["path"], tmp)
-    rec = {"tid": item["tid"], "file": name, "args": item.get("args", []), "ev": T.ev, "status": "", "texts": []}
+    rec = {"tid": item["tid"], "file": name, "args": item.get("args", []), "tag": item.get("tag", ""), "ev": T.ev, "status": "", "texts": []}
     t0 = time.time()
     out, err = io.StringIO(), io.StringIO()
     try:
         with contextlib.redirect_stdout(out), contextlib.redirect_stderr(err):
             cla = parse_args(["-f", tmp] + list(item.get("args", [])))
             oConfig = config.New(cla)
-            rounds = int(job.get("rounds", 1))
+            rounds = int(job.get("rounds", 1)) if item.get("tag", "default") == "default" else 1
             res = None
             for k in range(rounds):
                 if k > 0:
